@@ -158,7 +158,8 @@ class CombinedDataHandler:
         e.g. <district>_<county> or <district>_<county>_<precinct>
         """
         components = geographic_unit_fips.split("_")
-        if "district" in self.geographic_unit_type:
+        # an unexpected unit whose id has no county component (e.g. a state-wide absentee unit) is its own county
+        if "district" in self.geographic_unit_type and len(components) > 1:
             return components[1]
         return components[0]
 
